@@ -604,7 +604,41 @@ func (ex *Exec) ensureInit(pkg *ssa.Package, shared bool) {
 	}()
 }
 
-// goStmt: goroutines are outside the sequential executor.
+type pendingGo struct {
+	fr   *frame
+	fn   Value
+	args []Value
+}
+
+// goStmt: the sequential executor has no scheduler. A started goroutine is
+// recorded and run to completion only when the starting goroutine blocks in
+// a receive on a channel that is not yet closed (one legal schedule). This is
+// meant for goroutines whose only interaction is through stubs and a final
+// close of a "done" channel (testscript's background commands); anything
+// else a goroutine does with channels is reported as unsupported.
 func (ex *Exec) goStmt(fr *frame, instr *ssa.Go, fn Value, args []Value) {
-	ex.unsupported(fr, "go statement")
+	ex.pendingGo = append(ex.pendingGo, pendingGo{fr, fn, args})
+}
+
+// chanRecv implements <-ch for the deferred-goroutine model.
+func (ex *Exec) chanRecv(fr *frame, instr *ssa.UnOp, x Value) Value {
+	ch, _ := x.(*Chan)
+	if ch == nil {
+		ex.unsupported(fr, "receive from a nil channel (blocks forever)")
+	}
+	for !ch.closed {
+		if len(ex.pendingGo) == 0 || ex.goDepth > 0 {
+			ex.unsupported(fr, "channel receive that no deferred goroutine completes (would block)")
+		}
+		g := ex.pendingGo[0]
+		ex.pendingGo = ex.pendingGo[1:]
+		ex.goDepth++
+		ex.call(g.fr, token.NoPos, g.fn, g.args)
+		ex.goDepth--
+	}
+	et := instr.X.Type().Underlying().(*types.Chan).Elem()
+	if instr.CommaOk {
+		return Tuple{zero(et), false}
+	}
+	return zero(et)
 }
